@@ -1337,7 +1337,7 @@ class Emitter:
             if self.seq:
                 if self.cur_root is not None:
                     self.seq_yield(w)
-                w('  vf_vis_t = vf_tid;')
+                w('  VF_VIS(vf_tid);')
             return True
         if name == 'vf_join_all' and self.seq:
             y = self.seq_yield(w) if self.cur_root is not None else None
